@@ -367,16 +367,13 @@ theorem posLaws_rat : PosLaws Rat Rat where
     rw [Rat.sub_eq_add_neg, Rat.add_comm b, ← Rat.add_assoc, Rat.add_neg_cancel, Rat.zero_add]
 
 /-- non-vacuity of the hypotheses: a two-point curve over `Rat`. -/
-example : StrictSorted ([0, 5] : List Rat) ∧
-    Scalar.le (Scalar.abs ((0 : Rat) - 5)) (Scalar.eps : Rat) = false := by
-  constructor
-  · intro i j x y hij hx hy
-    match i, j, hij with
-    | 0, 1, _ => simp at hx hy; subst hx hy; decide
-    | 0, j + 2, _ => simp at hy
-    | i + 1, j + 2, _ => simp at hy
-    | i + 1, 1, h => omega
-  · decide
+example : StrictSorted ([0, 5] : List Rat) := by
+  intro i j x y hij hx hy
+  match i, j, hij with
+  | 0, 1, _ => simp at hx hy; subst hx hy; decide
+  | 0, j + 2, _ => simp at hy
+  | i + 1, j + 2, _ => simp at hy
+  | i + 1, 1, h => omega
 
 /-- the statement that remains unproved: the position never moves farther than the arc length between two
 progress values, under the curve invariant `|path[i] − path[i−1]| ≤ len[i] − len[i−1]`. It needs norm and order
